@@ -51,8 +51,11 @@ def Q(yaml, rng, items):
 def gen_value(yaml, rng, allow_map=True):
     r = rng.random()
     if r < 0.6:
-        return S(yaml, rng, rng.choice(['w', 'Basic widget', '100.0', 'x']),
-                 rng.choice(['str', 'str', 'float', 'int']))
+        n = S(yaml, rng, rng.choice(['w', 'Basic widget', '100.0', 'x']),
+              rng.choice(['str', 'str', 'float', 'int']))
+        if rng.random() < 0.15:
+            n.tag = rng.choice(['!Price', '!Label'])      # an application tag on a value
+        return n
     if r < 0.8 or not allow_map:
         return Q(yaml, rng, [S(yaml, rng, 'e')] * rng.randint(0, 2))
     return M(yaml, rng, [(S(yaml, rng, 'deep'), S(yaml, rng, '1', 'int'))])
@@ -80,6 +83,10 @@ def gen_item(yaml, rng, key_attr, val_attr, key_value, style):
                     pairs.append((S(yaml, rng, n), S(yaml, rng, key_value + 'x')))
         else:
             pairs.append((S(yaml, rng, n), gen_value(yaml, rng, allow_map=(style == 'mapvalue' or rng.random() < 0.1))))
+    if rng.random() < 0.06:
+        # a key that is not a scalar
+        pairs.insert(rng.randint(0, len(pairs)), (Q(yaml, rng, [S(yaml, rng, 'x'), S(yaml, rng, 'y')]),
+                                                  S(yaml, rng, '1', 'int')))
     return M(yaml, rng, pairs)
 
 
@@ -142,6 +149,8 @@ def attr_node(yaml, node, attr):
 def item_ok(yaml, item, key_attr):
     if not isinstance(item, yaml.MappingNode):
         return False
+    if not all(isinstance(k, yaml.ScalarNode) for k, _ in item.value):
+        return False        # the documented shapes are for mappings with unique *string* keys
     ks = [k.value for k, _ in item.value]
     if len(set(ks)) != len(ks) or ks.count(key_attr) != 1:
         return False
@@ -168,6 +177,11 @@ def explore(ctx):
         strict = rng.random() < 0.7
         which = rng.choice(['seq_to_map', 'map_to_seq', 'index_to_map', 'map_to_index', 'pair-seq',
                             'pair-index', 'dashes'])
+        if which != 'dashes' and rng.random() < 0.06:
+            # a key that is not a scalar beside the attribute (the key renamings call str methods on every
+            # key: they are documented for string keys only)
+            node.value.insert(rng.randint(0, len(node.value)),
+                              (M(yaml, rng, [(S(yaml, rng, 'a'), S(yaml, rng, 'b'))]), S(yaml, rng, '1', 'int')))
         if which == 'seq_to_map':
             ops = [('seq_to_map', attr, ka, va, strict)]
         elif which in ('map_to_seq', 'index_to_map', 'map_to_index'):
@@ -180,7 +194,19 @@ def explore(ctx):
             ops = [rng.choice([('unders_to_dashes',), ('dashes_to_unders',)])]
             if rng.random() < 0.5:
                 ops.append(('dashes_to_unders',) if ops[0][0] == 'unders_to_dashes' else ('unders_to_dashes',))
+        given = set()
+
+        def ids(x):
+            given.add(id(x))
+            if isinstance(x, yaml.SequenceNode):
+                for y in x.value:
+                    ids(y)
+            elif isinstance(x, yaml.MappingNode):
+                for k, v in x.value:
+                    ids(k)
+                    ids(v)
         req, results, final, wrapper = c14.run_case(ctx, real, node, ops)
+        ids(node)
         before = plain(yaml, node)
         after = plain(yaml, wrapper.yaml_node)
         ctx.case(('t', i), nontrivial=(before != after or any(r != 'ok' for r in results)))
@@ -199,6 +225,23 @@ def explore(ctx):
         # ---- oracle -------------------------------------------------------------
         first = ops[0][0]
         r0 = results[0]
+        # every collection node a transform creates is a plain !!map / !!seq
+        def created_wrong(x):
+            if isinstance(x, yaml.SequenceNode):
+                if id(x) not in given and x.tag != N.T['seq']:
+                    return x.tag
+                return next((t for t in map(created_wrong, x.value) if t), None)
+            if isinstance(x, yaml.MappingNode):
+                if id(x) not in given and x.tag != N.T['map']:
+                    return x.tag
+                return next((t for kv in x.value for t in map(created_wrong, kv) if t), None)
+            return None
+        if which != 'dashes':
+            wrong = created_wrong(wrapper.yaml_node)
+            if wrong:
+                ctx.violation('{} created a collection node tagged {}'.format(ops, wrong),
+                              dict(desc, key='created-tag:{}:{}'.format(first, wrong)))
+                continue
         bad = [r for r in results if r not in ('ok', 'err SeasoningError')]
         if bad:
             ctx.violation('{} raised {}'.format(ops, bad[0]),
@@ -224,6 +267,9 @@ def explore(ctx):
                               dict(desc, key='halfmutated:{}:{}'.format(first, kind)))
                 continue
         # documented shapes for well-formed inputs
+        if not all(isinstance(k, yaml.ScalarNode) for k, _ in node.value):
+            ctx.count('skipped_shape:non-scalar-key')
+            continue
         if first == 'seq_to_map' and an is not None and isinstance(an, yaml.SequenceNode) \
                 and all(item_ok(yaml, x, ka) for x in an.value):
             keys = [[v.value for k, v in x.value if k.value == ka][0] for x in an.value]
